@@ -277,7 +277,7 @@ def lifecycle(model, info, art):
     return ("confirmed" if problems else "contradicted"), "; ".join(problems) or f"well-formed stream {names}"
 
 
-def collect_streams(model, info, art):
+def _collect_streams(model, info, art, declare_collect):
     """C45: one collect of n WritesStreamAssets detectors on a pre-declared stream, with the indices / counter of the counter-model"""
     from event_model import StreamRange, EventModelValueError
     n, first = int(info.get("n", 2)), bool(info.get("first", True))
@@ -301,6 +301,12 @@ def collect_streams(model, info, art):
 
         def describe_collect(self):
             return {f"img{self.i}": {"dtype": "array", "shape": [1], "source": "x", "external": "STREAM:"}}
+
+        def describe(self):
+            return self.describe_collect()
+
+        def read(self):
+            return {}
 
         def read_configuration(self):
             return {}
@@ -329,7 +335,7 @@ def collect_streams(model, info, art):
 
     async def go():
         await b.open_run(Msg("open_run"))
-        await b.declare_stream(Msg("declare_stream", None, *dets, name="fly", collect=True))
+        await b.declare_stream(Msg("declare_stream", None, *dets, name="fly", collect=declare_collect))
         first_counter = b._sequence_counters["fly"]
         b._sequence_counters["fly"] = nxt
         if not first:
@@ -367,6 +373,25 @@ def collect_streams(model, info, art):
             bad.append(f"{len(datums)} stream_datums emitted for {n} detectors")
         if same and b._sequence_counters["fly"] != nxt + widths[0]:
             bad.append(f"counter went from {nxt} to {b._sequence_counters['fly']} for a collect of width {widths[0]}")
+        # a rewind before the next checkpoint must not roll the collected stream back
+        snap = min(max(1, val("snap_fly", 1)), nxt)
+        after = b._sequence_counters["fly"]
+        b._sequence_counters_copy["fly"] = snap
+        b.rewind()
+        if b._sequence_counters["fly"] != after:
+            bad.append(f"a rewind after the collect rolled the stream's counter back from {after} to {b._sequence_counters['fly']}")
     if bad:
         return "confirmed", "; ".join(bad)
     return "contradicted", f"n={n} first={first} next={nxt} widths={widths} asked={asked}: all clauses hold natively"
+
+
+def collect_streams(model, info, art):
+    """the stream may have been declared with collect=True or collect=False: the clauses hold either way"""
+    out = []
+    for mode in (True, False):
+        v, d = _collect_streams(model, info, art, mode)
+        out.append((v, f"[declare_stream(collect={mode})] {d}"))
+    for v, d in out:
+        if v == "confirmed":
+            return v, d
+    return out[0]
